@@ -127,6 +127,15 @@ PROGRAMS_THOROUGH = [
 ]
 
 
+REPLAY_KEYS = ("dq", "closed", "now", "out", "lockC", "removed", "pc")
+
+
+def _replay_job(args):
+    from checks import scen_queues
+
+    return scen_queues.dq_replay(*args)
+
+
 def random_program(seed):
     rng = random.Random(seed)
     n = 0
@@ -161,10 +170,52 @@ def run(c: checklib.Check):
             c.machinery_failure(f"design spec {cfg} violated: {r.violated} {r.errors[:2]}")
         c.note(f"TLC {cfg}: {r.distinct} distinct states, depth {r.depth}, {r.wall:.1f}s")
 
+    import multiprocessing as mp
+
+    # ---- spec -> code: a transition cover of the dumped graph of DelayedQueue_cover.cfg replayed on the real DelayedQueue
+    from harness import tlagraph
+
+    tmp = tlc.scratch_dir()
+    try:
+        dot = os.path.join(tmp, "dq.dot")
+        r2 = tlc.run_tlc("DelayedQueue", "DelayedQueue_cover.cfg", workers=c.jobs, dump=dot, timeout=900)
+        tlc.require_ok(r2, "cover model")
+        g = tlagraph.load_dot(dot)
+    finally:
+        import shutil
+
+        shutil.rmtree(tmp, ignore_errors=True)
+    walks, nedges = tlagraph.transition_cover(g, max_len=40, skip_labels=("Finished",))
+    if not c.thorough:
+        random.Random(c.seed).shuffle(walks)
+        walks = walks[:4000]
+    jobs = []
+    for _root, walk in walks:
+        acts = [tlagraph.parse_label(lab) for lab, _ in walk]
+        states = [{k: g.state(n)[k] for k in REPLAY_KEYS} for _, n in walk]
+        jobs.append((acts, states))
+    del g
+    with mp.get_context("fork").Pool(c.jobs) as pool:
+        res = pool.map(_replay_job, jobs, chunksize=50)
+    nbad = 0
+    for (acts, _states), mm in zip(jobs, res):
+        if mm is not None:
+            nbad += 1
+            # divergence from the implementation-shaped model = drift (the design-level results no longer transfer to
+            # this code); whether a property is broken is decided by Level P below
+            if nbad <= 3:
+                c.note(f"spec->code drift: {mm} on walk {[str(a) for a in acts]}")
+    c.cov["model_edges"] = nedges
+    c.cov["walks_replayed"] = len(jobs)
+    c.cov["model_edges_replayed"] = sum(len(a) for a, _ in jobs)
+    c.cov["drift_traces"] = c.cov.get("drift_traces", 0) + nbad
+    c.cov["evaluations"] += len(jobs)
+    c.note(f"spec->code: {len(jobs)} walks ({c.cov['model_edges_replayed']} steps) of a transition cover of {nedges} edges replayed on "
+           f"the real DelayedQueue, state compared after every action, {nbad} diverged")
+
     traces, meta = [], []
     total = 0
     # (a) sequential words
-    import multiprocessing as mp
 
     ws = words(5 if c.thorough else 4)
     chunks = [ws[i :: c.jobs] for i in range(c.jobs)]
